@@ -1102,3 +1102,80 @@ func optimizerUnwraps(c *Ctx, g *load.G, rule string) {
 	r.Check(len(bad) == 0 && n >= 4, rule, "G.ast.optimizeRule:replaces-a-node-only-by-its-single-element-or-a-clone", "", g.Where(fd.Pos()),
 		fmt.Sprintf("%d returning paths: the expression itself, a clone of the referenced rule, or the only element of a list", n), strings.Join(uniq(bad), "; "))
 }
+
+// classTextIsDisplayOnly (C09-j): the text of a character class (CharClassMatcher.Val) identifies the class only as
+// long as the front-end wrote it. The optimizer rebuilds it for merged classes from the member lists without
+// escaping '^', '-', ']' or '\\' (the literals '^' / '*' merge into a class whose text reads "[^*]"), so after
+// -optimize-grammar two different classes can carry the same text. That is harmless while the text is only shown
+// (the `val:` key of the emitted matcher, used in the expected-list of error messages); any other reader in the
+// builder or the optimizer - a map key, a comparison, a cache - treats different classes as one.
+func classTextIsDisplayOnly(c *Ctx, g *load.G, rule string) {
+	r := c.R
+	n := 0
+	var bad []string
+	for _, sfx := range []string{"builder", "ast"} {
+		p := g.Pkg(sfx)
+		if p == nil {
+			continue
+		}
+		for i, f := range p.Syntax {
+			fn := p.CompiledGoFiles[i]
+			if strings.HasSuffix(fn, "_test.go") || sfx == "ast" && !strings.HasSuffix(fn, "ast_optimize.go") {
+				continue
+			}
+			var stack []ast.Node
+			ast.Inspect(f, func(nd ast.Node) bool {
+				if nd == nil {
+					stack = stack[:len(stack)-1]
+					return true
+				}
+				stack = append(stack, nd)
+				se, ok := nd.(*ast.SelectorExpr)
+				if !ok || se.Sel.Name != "Val" {
+					return true
+				}
+				t := p.TypesInfo.TypeOf(se.X)
+				if t == nil || namedOf(t) != "CharClassMatcher" {
+					return true
+				}
+				// a store (the optimizer rebuilding the text) is not a read
+				if len(stack) >= 2 {
+					if as, ok := stack[len(stack)-2].(*ast.AssignStmt); ok {
+						for _, l := range as.Lhs {
+							if l == ast.Expr(se) {
+								return true
+							}
+						}
+					}
+				}
+				n++
+				// accepted: an argument of an emission whose constant format writes the `val:` key
+				okUse := false
+				for k := len(stack) - 2; k >= 0; k-- {
+					ce, ok := stack[k].(*ast.CallExpr)
+					if !ok {
+						continue
+					}
+					if cs := callSel(ce); (cs == "writelnf" || cs == "writef") && len(ce.Args) >= 2 {
+						if tv, ok := p.TypesInfo.Types[ce.Args[0]]; ok && tv.Value != nil && strings.Contains(tv.Value.ExactString(), "val:") {
+							for _, a := range ce.Args[1:] {
+								if a == ast.Expr(se) {
+									okUse = true
+								}
+							}
+						}
+					}
+					break
+				}
+				if !okUse {
+					bad = append(bad, fmt.Sprintf("%s reads the text of a character class for something other than the emitted `val:` key", g.Where(se.Pos())))
+				}
+				return true
+			})
+		}
+	}
+	r.Analysed["class_text_reads"] = n
+	r.Check(len(bad) == 0 && n >= 1, rule, "G:class-text-is-display-only", "", "builder/, ast/ast_optimize.go",
+		fmt.Sprintf("%d read(s) of CharClassMatcher.Val, all emitting the `val:` key", n),
+		strings.Join(bad, "; ")+": the optimizer rebuilds that text from the member lists without escaping ^ - ] \\\\ ('^' / '*' becomes a class that reads \"[^*]\"), so with -optimize-grammar two different classes can carry the same text and are taken for one")
+}
